@@ -75,6 +75,7 @@ class C09(vlib.PropertyCheck):
         cases += L.gen_chain([9, 10, 11, 19, 20, 21, 39, 40, 41, 79, 80, 81, 159, 160, 161, 254, 255] if quick else [1, 2, 8, 9, 10, 11, 12, 19, 20, 21, 22, 39, 40, 41, 42, 79, 80, 81, 82, 159, 160, 161, 162, 200, 253, 254, 255])
         cases += L.gen_tables(rng, [1, 18, 19, 20, 21, 39, 40, 159, 160, 161, 255] if quick else [0, 1, 2, 18, 19, 20, 21, 38, 39, 40, 41, 78, 79, 80, 81, 158, 159, 160, 161, 200, 247, 248, 254, 255])
         cases += L.gen_open(rng, long_version=False)
+        cases += L.gen_keyword_edges()
         cases += L.gen_registered(rng, L.REG_COUNTS_QUICK if quick else sorted(set(L.REG_COUNTS_QUICK + L.REG_COUNTS_MORE)))
         cases += L.gen_structured(rng, 500 if quick else 8000)
         cases += L.gen_structured(rng, 40 if quick else 600, long_lines=True)
